@@ -205,6 +205,133 @@ mod interpose {
         libc::syscall(libc::SYS_fcntl, fd as libc::c_long, cmd as libc::c_long, arg) as libc::c_int
     }
 
+    fn is_sim_stream(fd: libc::c_int) -> bool {
+        sim_fds() && world::try_with(|w| matches!(w.obj(fd), Some(world::FdObj::Stream(_)))).unwrap_or(false)
+    }
+
+    fn fail(e: i32) -> isize {
+        set_errno(e);
+        -1
+    }
+
+    /// recv / send / shutdown / poll / getsockopt / setsockopt by descriptor number. "C-unwind": a
+    /// call that would block for ever raises the stub's distinctive panic, which must be able to
+    /// travel through these frames to the harness' catch_unwind.
+    #[no_mangle]
+    pub unsafe extern "C-unwind" fn recv(fd: libc::c_int, buf: *mut libc::c_void, len: libc::size_t, flags: libc::c_int) -> libc::ssize_t {
+        if is_sim_stream(fd) {
+            let r = world::with(|w| w.raw_recv(fd, len, flags & libc::MSG_PEEK != 0, flags & libc::MSG_DONTWAIT != 0));
+            return match r {
+                Ok(Some(v)) => {
+                    if !v.is_empty() {
+                        std::ptr::copy_nonoverlapping(v.as_ptr(), buf as *mut u8, v.len());
+                    }
+                    v.len() as libc::ssize_t
+                }
+                Ok(None) => crate::block("recv", fd),
+                Err(e) => fail(e),
+            };
+        }
+        libc::syscall(libc::SYS_recvfrom, fd as libc::c_long, buf, len, flags as libc::c_long, 0usize, 0usize) as libc::ssize_t
+    }
+
+    #[no_mangle]
+    pub unsafe extern "C-unwind" fn send(fd: libc::c_int, buf: *const libc::c_void, len: libc::size_t, flags: libc::c_int) -> libc::ssize_t {
+        if is_sim_stream(fd) {
+            let data = std::slice::from_raw_parts(buf as *const u8, len);
+            let r = world::with(|w| w.raw_send(fd, data, flags & libc::MSG_DONTWAIT != 0));
+            return match r {
+                Ok(Some(n)) => n as libc::ssize_t,
+                Ok(None) => crate::block("send", fd),
+                Err(e) => fail(e),
+            };
+        }
+        libc::syscall(libc::SYS_sendto, fd as libc::c_long, buf, len, flags as libc::c_long, 0usize, 0usize) as libc::ssize_t
+    }
+
+    #[no_mangle]
+    pub unsafe extern "C" fn shutdown(fd: libc::c_int, how: libc::c_int) -> libc::c_int {
+        if is_sim_stream(fd) {
+            let h = match how {
+                libc::SHUT_RD => world::How::Rd,
+                libc::SHUT_WR => world::How::Wr,
+                _ => world::How::RdWr,
+            };
+            return match world::with(|w| w.srv_shutdown(fd, h)) {
+                Ok(()) => 0,
+                Err(e) => fail(e) as libc::c_int,
+            };
+        }
+        libc::syscall(libc::SYS_shutdown, fd as libc::c_long, how as libc::c_long) as libc::c_int
+    }
+
+    #[no_mangle]
+    pub unsafe extern "C-unwind" fn poll(fds: *mut libc::pollfd, nfds: libc::nfds_t, timeout: libc::c_int) -> libc::c_int {
+        if sim_fds() && !fds.is_null() && nfds > 0 {
+            let list = std::slice::from_raw_parts_mut(fds, nfds as usize);
+            let masks: Option<Vec<Option<u32>>> = world::try_with(|w| list.iter().map(|p| if p.fd < 0 { None } else { w.raw_poll_mask(p.fd) }).collect());
+            if let Some(masks) = masks {
+                if masks.iter().any(|m| m.is_some()) {
+                    let mut ready = 0;
+                    for (p, m) in list.iter_mut().zip(masks.iter()) {
+                        p.revents = match m {
+                            Some(m) => (*m as libc::c_short) & (p.events | libc::POLLERR | libc::POLLHUP),
+                            None if p.fd >= 0 => libc::POLLNVAL,
+                            None => 0,
+                        };
+                        if p.revents != 0 {
+                            ready += 1;
+                        }
+                    }
+                    if ready == 0 {
+                        if timeout < 0 {
+                            crate::block("poll", list[0].fd);
+                        }
+                        // the timeout expires: simulated time passes
+                        clock::advance(timeout as u64 * 1_000_000);
+                    }
+                    return ready;
+                }
+            }
+        }
+        let ts = libc::timespec { tv_sec: (timeout / 1000) as libc::time_t, tv_nsec: ((timeout % 1000) as i64 * 1_000_000) as _ };
+        let tsp: *const libc::timespec = if timeout < 0 { std::ptr::null() } else { &ts };
+        libc::syscall(libc::SYS_ppoll, fds, nfds, tsp, 0usize, 0usize) as libc::c_int
+    }
+
+    #[no_mangle]
+    pub unsafe extern "C" fn getsockopt(fd: libc::c_int, level: libc::c_int, name: libc::c_int, val: *mut libc::c_void, len: *mut libc::socklen_t) -> libc::c_int {
+        if is_sim_stream(fd) {
+            if level != libc::SOL_SOCKET || val.is_null() || len.is_null() || (*len as usize) < std::mem::size_of::<libc::c_int>() {
+                return fail(libc::ENOPROTOOPT) as libc::c_int;
+            }
+            let v: libc::c_int = match name {
+                libc::SO_ERROR => match world::with(|w| w.raw_take_error(fd)) {
+                    Ok(e) => e,
+                    Err(e) => return fail(e) as libc::c_int,
+                },
+                libc::SO_TYPE => libc::SOCK_STREAM,
+                libc::SO_SNDBUF => world::with(|w| w.cfg.cap_s2c) as libc::c_int,
+                libc::SO_RCVBUF => world::with(|w| w.cfg.cap_c2s) as libc::c_int,
+                libc::SO_ACCEPTCONN => 0,
+                _ => return fail(libc::ENOPROTOOPT) as libc::c_int,
+            };
+            *(val as *mut libc::c_int) = v;
+            *len = std::mem::size_of::<libc::c_int>() as libc::socklen_t;
+            return 0;
+        }
+        libc::syscall(libc::SYS_getsockopt, fd as libc::c_long, level as libc::c_long, name as libc::c_long, val, len) as libc::c_int
+    }
+
+    #[no_mangle]
+    pub unsafe extern "C" fn setsockopt(fd: libc::c_int, level: libc::c_int, name: libc::c_int, val: *const libc::c_void, len: libc::socklen_t) -> libc::c_int {
+        if is_sim_stream(fd) {
+            // accepted, without effect on the simulated buffers (their sizes are knobs of the case)
+            return 0;
+        }
+        libc::syscall(libc::SYS_setsockopt, fd as libc::c_long, level as libc::c_long, name as libc::c_long, val, len as libc::c_long) as libc::c_int
+    }
+
     #[no_mangle]
     pub unsafe extern "C" fn ioctl(fd: libc::c_int, req: libc::c_ulong, arg: *mut libc::c_void) -> libc::c_int {
         if req == libc::FIONBIO as libc::c_ulong && !arg.is_null() && sim_fds() {
